@@ -1,5 +1,6 @@
 #!/usr/bin/env python3
-"""tools/revert_eval.py [keys...] : for every `fixed` entry of KNOWN_FINDINGS.json, take a scratch copy of /repo, undo the
+"""tools/revert_eval.py [keys...] : (hand-made undo patches for repairs whose lines were touched again: tools/reverts/)
+tools/revert_eval.py [keys...] : for every `fixed` entry of KNOWN_FINDINGS.json, take a scratch copy of /repo, undo the
 repair commit there (git revert --no-commit on a scratch CLONE, never in /repo) and run the property's quick check against
 it.  A repair that can be undone without the check noticing means the check no longer reaches what found the defect.
 Writes tools/revert_eval.json; prints one line per entry."""
@@ -30,6 +31,10 @@ def main():
         try:
             r = sh('git clone -q /repo %s/repo && cd %s/repo && git -c user.name=x -c user.email=x@x revert --no-commit %s'
                    % (d, d, ' '.join(commits)))
+            hand = os.path.join(ROOT, 'tools', 'reverts', e['key'].replace('/', '__') + '.diff')
+            if r.returncode != 0 and os.path.exists(hand):
+                # later repairs touched the same lines: a hand-made patch puts the original defect back on today's tree
+                r = sh('cd %s/repo && git revert --abort; git checkout -q . && git apply %s' % (d, hand))
             if r.returncode != 0:
                 out[e['key']] = {'property': prop, 'commit': e['commit'], 'reverted': False, 'note': r.stdout[-300:]}
                 print(e['key'], 'REVERT-CONFLICT')
